@@ -45,6 +45,18 @@ fn classify(input: &[u8], from: Option<Fmt>, to: Fmt, s: &Outcome, r: &Outcome) 
                 return Some("C02-json-adjacent-scalars");
             }
         }
+        // the toml crate's reserved date-time key as an ordinary JSON key, to TOML: the slice path writes a
+        // table with that key, the reader path (Deserialize into toml::Value) takes the table for a date-time
+        if to == Fmt::Toml && s.verdict.is_ok() && input.windows(24).any(|w| w == b"$__toml_private_datetime") && std::str::from_utf8(&s.out).map(|t| t.contains("$__toml_private_datetime")).unwrap_or(false) {
+            let reader_side = match &r.verdict {
+                Verdict::Ok => !String::from_utf8_lossy(&r.out).contains("$__toml_private_datetime"),
+                Verdict::Err(e) => e.contains("datetime"),
+                _ => false,
+            };
+            if reader_side {
+                return Some("C02-toml-private-datetime-key");
+            }
+        }
         // D5: repeated key to TOML: accepted from a slice, refused from a reader.
         if to == Fmt::Toml && s.verdict.is_ok() {
             if let Verdict::Err(e) = &r.verdict {
